@@ -156,13 +156,20 @@ def sanitize_for(kw, x):
     """F32 (known finding): with the csv option lineterminator = one line-break character, strings containing the OTHER one do not survive
     (a property of the stdlib csv module); the generated histories replace that character for such a configuration"""
     lt = (kw or {}).get("lineterminator")
-    if lt not in ("\n", "\r"):
+    enc = (kw or {}).get("encoding")
+    narrow = enc in ("latin-1", "ascii")
+    if lt not in ("\n", "\r") and not narrow:
         return x
-    bad, good = ("\r", "r") if lt == "\n" else ("\n", "n")
+    bad, good = ("\r", "r") if lt == "\n" else (("\n", "n") if lt == "\r" else ("", ""))
+    limit = 256 if enc == "latin-1" else 128
 
     def go(v):
         if isinstance(v, str):
-            return v.replace(bad, good)
+            if narrow:
+                # a text encoding that cannot express a character makes the write itself fail (UnicodeEncodeError, judged by C11's own
+                # battery): the histories of such a configuration stay inside what it can express
+                v = "".join(c if ord(c) < limit else "\u00a4" if limit == 256 else "?" for c in v)
+            return v.replace(bad, good) if bad else v
         if isinstance(v, tuple):
             return tuple(go(i) for i in v)
         if isinstance(v, list):
@@ -320,7 +327,10 @@ def direct_oracle(cases):
                 bad.append((ci, k, want))
                 kind, _ = _kind(o)
                 if kind in WRITE_KINDS:
-                    db = None                 # resynchronise on the implementation's own contents at the next iteration
+                    # the documented meaning says what the contents are after this write, whatever the call returned: the following steps (the
+                    # file, an iteration, reads) are judged against THAT - a wrong count and wrong contents are then both seen, each by the
+                    # properties that speak about it
+                    db = db2
                 # a read that answers wrongly leaves the contents alone: later steps (e.g. the same read through a handle) are still judged
                 continue
             db = db2
